@@ -206,6 +206,15 @@ func (s *Store) Exec(tx *txState, ctx int, text string, args []driver.Value) (Re
 		}
 		return Result{}, nil
 	}
+	res := Result{Affected: 1}
+	if s.OnExec != nil {
+		res = s.OnExec(text, args)
+	}
+	if res.Affected == 0 {
+		// a statement that touched no row changes nothing: no write token
+		s.Log = append(s.Log, Event{Kind: "EXEC", Text: text, Args: args, Ctx: ctx, Tx: txid})
+		return res, nil
+	}
 	s.nextTok++
 	tok := s.nextTok
 	s.Log = append(s.Log, Event{Kind: "EXEC", Text: text, Args: args, Ctx: ctx, Tx: txid, Tok: tok})
@@ -214,10 +223,7 @@ func (s *Store) Exec(tx *txState, ctx int, text string, args []driver.Value) (Re
 	} else {
 		s.Durable = append(s.Durable, tok)
 	}
-	if s.OnExec != nil {
-		return s.OnExec(text, args), nil
-	}
-	return Result{Affected: 1}, nil
+	return res, nil
 }
 
 func (s *Store) Query(tx *txState, ctx int, text string, args []driver.Value) (RowSet, error) {
